@@ -394,6 +394,16 @@ def r1_table(ctx):
                 reported.add(key)
                 ctx.violation("C04.R1", key, "UNRECOGNISED result term (%s)" % e)
             continue
+        if isinstance(got, tuple) and got[0] == "Ok" and isinstance(got[1], dict) and "__variant" in got[1]:
+            # an enum-valued decision: translate the variant through what `serve` does with it
+            dec = SM.cond_decisions(ctx, SM.analyse(ctx)).get(got[1]["__variant"])
+            if dec is None:
+                key = "C04.R1|decision-variant|%s" % got[1]["__variant"]
+                if key not in reported:
+                    reported.add(key)
+                    ctx.violation("C04.R1", key, "UNRECOGNISED: the decision variant %s is not acted on by a 412 / 304 / proceed row of serve" % got[1]["__variant"])
+                continue
+            got = ("Ok", (dec == "412", dec == "304"))
         if not (isinstance(got, tuple) and got[0] == "Ok"):
             cls = "error-on-wellformed"
             key = "C04.R1|%s|%s" % (cls, _class(im, inm, ius, ims, mt, et, want, None))
